@@ -44,6 +44,7 @@ public:
   virtual bool is_default_constructible() const;
   virtual bool is_copy_constructible() const;
   virtual bool is_copy_assignable() const;
+  virtual bool is_destructible() const;
   virtual bool is_equivalent(const CPPType &other) const;
 
   virtual size_t get_sizeof() const;
